@@ -58,6 +58,8 @@ def adjudicate(rep, records, owned, *, trace_module="Trace_Codec", nontrivial=No
     """Validate records with TLC and sort the verdicts into accepted / known finding / violation."""
     ok = [r for r in records if "loaderr" not in r]
     bad = [r for r in records if "loaderr" in r]
+    for i, r in enumerate(ok):          # ids must be unique within a batch
+        r["id"] = i
     rep.evaluations += len(records)
     for r in bad:
         if "load" in owned:
